@@ -652,6 +652,18 @@ impl Node {
         }
         debug!("Payment is valid for record {pretty_key}");
 
+        // the quote(s) we issued must have been issued for the data being stored,
+        // otherwise a payment for one address could be reused to upload other data to us
+        let content = address.as_xorname().unwrap_or_default();
+        if payment
+            .quotes_by_peer(&self_peer_id)
+            .iter()
+            .any(|quote| quote.content != content)
+        {
+            warn!("Payment quote was not issued for record {pretty_key}");
+            return Err(Error::InvalidQuoteContent);
+        }
+
         // verify quote expiration
         if payment.has_expired() {
             warn!("Payment quote has expired for record {pretty_key}");
